@@ -216,6 +216,64 @@ def main(tier):
                     fail(kind='history: fields read back differ from what the sequence of transfers wrote', wrong_fields=bad[:6], **desc)
                 else:
                     nontrivial.add(('history', delim_name, si, two_generates))
+    # ---- arrays addressed BACKWARDS from an anchor below the block (negative row_start, row_end up to 0 = the anchor line) ----
+    for delim_name, delim in (('space', ' '), ('comma', ', ')):
+        nrow, ncol = 3, 3
+        base = [[11.5 + 10 * r + c for c in range(ncol)] for r in range(nrow)]
+        body = [delim.join('%r' % v for v in row) for row in base]
+        lines = ['header line', 'BEGIN'] + body[:-1] + [body[-1] + delim + 'END_BLOCK', 'trailer 99']
+        with open(tfile, 'w') as f:
+            f.write('\n'.join(lines) + '\n')
+        pool_vals = floats[:9] + floats[12:15]
+        for row_start in (-2, -1, 0):
+            for row_end in range(row_start, 1):
+                for fs, fe in ((1, 3), (2, 3), (1, 2), (2, 2)):
+                    nr_ = row_end - row_start + 1
+                    L = (fe - fs + 1) if nr_ == 1 else ((ncol - fs + 1) + (nr_ - 2) * ncol + fe)
+                    if nr_ > 1 and row_end == 0:
+                        # the anchor line carries one extra field (the anchor text) after its numbers
+                        pass
+                    ev += 1
+                    combo = [pool_vals[(k * 7 + row_start + fs) % len(pool_vals)] for k in range(L)]
+                    desc = dict(history='array addressed backwards from the END_BLOCK anchor', delim=delim_name, row_start=row_start, row_end=row_end, field_start=fs, field_end=fe)
+                    try:
+                        g = InputFileGenerator()
+                        g.set_template_file(tfile)
+                        g.set_generated_file(gfile)
+                        if delim_name == 'comma':
+                            g.set_delimiters(', ')
+                        g.mark_anchor('END_BLOCK')
+                        g.transfer_array(np.array(combo), row_start, fs, fe, row_end=row_end)
+                        g.generate()
+                        p = FileParser()
+                        p.set_file(gfile)
+                        if delim_name == 'comma':
+                            p.set_delimiters(', ')
+                        p.mark_anchor('END_BLOCK')
+                        got = list(np.atleast_1d(p.transfer_array(row_start, fs, row_end, fe)))
+                        p.reset_anchor()
+                        p.mark_anchor('BEGIN')
+                        grid = [[p.transfer_var(r + 1, c + 1) for c in range(ncol)] for r in range(nrow)]
+                    except Exception as e:     # noqa
+                        fail(kind='backward-array-exception', error='%s: %s' % (type(e).__name__, e), **desc)
+                        continue
+                    if len(got) != L or not all(same(float(a), b if not hasattr(b, 'item') else b.item()) for a, b in zip(combo, got)):
+                        fail(kind='backward array: values read back differ', written=[repr(v) for v in combo], read_back=[repr(v) for v in got], **desc)
+                        continue
+                    # fields outside the addressed range keep the template values
+                    k = 0
+                    bad = None
+                    for r in range(nrow):
+                        rr = r - (nrow - 1)            # row index relative to the anchor line
+                        for c in range(ncol):
+                            inside = (row_start <= rr <= row_end) and ((nr_ == 1 and fs - 1 <= c <= fe - 1) or
+                                                                         (nr_ > 1 and ((rr == row_start and c >= fs - 1) or (row_start < rr < row_end) or (rr == row_end and c <= fe - 1))))
+                            if not inside and not same(base[r][c], grid[r][c]):
+                                bad = (r + 1, c + 1, repr(base[r][c]), repr(grid[r][c]))
+                    if bad:
+                        fail(kind='backward array: other fields disturbed', field=bad, **desc)
+                    else:
+                        nontrivial.add(('backward', delim_name, row_start, row_end, fs, fe))
     import shutil
     shutil.rmtree(tmp, ignore_errors=True)
     print(json.dumps({'evaluations': ev, 'distinct_nontrivial': len(nontrivial), 'n_failures': len(fails),
